@@ -382,7 +382,8 @@ fn run_once(case: &RCase) -> Result<CaseReport, Failure> {
   let global = case.global;
   let nm = move |n: u8| -> Option<String> {
     if global {
-      Some(format!("{}~{nonce}", name_of(n).unwrap_or("n")))
+      // ("~r": E4 uses "~<n>" with a counter of its own on the same process-wide container)
+      Some(format!("{}~r{nonce}", name_of(n).unwrap_or("n")))
     } else {
       name_of(n).map(String::from)
     }
@@ -452,7 +453,7 @@ fn run_once(case: &RCase) -> Result<CaseReport, Failure> {
   // bystanders: never re-registered.  A = same type under the confusable partner of the
   // target's name (else under another name), B = another type under the same name.
   let by_a_name = TWINS.iter().find_map(|&(a, b)| if a == name { Some(b) } else if b == name { Some(a) } else { None }).unwrap_or(if name == 2 { 1 } else { 2 });
-  let by_keys: [(u8, u8); 2] = [(ty, by_a_name), ((ty + 1 + (nonce % 6) as u8) % NTY, name)];
+  let by_keys: [(u8, u8); 2] = [(ty, by_a_name), ((ty + 1 + case.gap % 6) % NTY, name)];
   for (i, &(bt, bn)) in by_keys.iter().enumerate() {
     let (rt2, reg) = (rt.clone(), by_regs[i]);
     let idx = n_t + i;
